@@ -323,6 +323,21 @@ def run(chk):
             chk.violation(f'schedule-{kind}', f'bin_{kind} n={n} with {T} worker threads: {r["problem"]}', dict(n=n, T=T, kind=kind))
     chk.part('schedule_replay', schedules=nsch)
     chk.add_cases(nsch)
+    # ---- mode counts are exact integers however large: one bin holding every mode of a mesh with more than 2**24 modes (default float32 weights)
+    try:
+        nL = 336 if chk.quick else 416          # more than 2**25 modes: a single-precision counter cannot even add 2 any more
+        wL = np.ones((nL, nL, nL // 2 + 1), dtype=np.float32)
+        for nt in (1, 16):
+            rL = bin_kmu(nL, L, np.array([0.0, 1.0e9]), np.array([0.0, 1.0]), wL, poles=np.array([0], dtype=np.int64), nthread=nt)
+            cL = int(np.asarray(rL[1]).sum())
+            if cL != nL ** 3 or int(np.asarray(rL[3]).sum()) != nL ** 3:
+                chk.violation('large-mesh-count', f'bin_kmu n={nL} nthread={nt}, one bin covering every mode: N_mode = {cL} (poles {int(np.asarray(rL[3]).sum())}), the mesh has {nL ** 3} modes', dict(n=nL, nthread=nt))
+            # (the weighted sums are accumulated in the dtype of the call — float32 by default — and lose precision beyond 2**24 addends per thread:
+            #  a rounding matter outside this property; only the integer counts are judged here)
+        del wL
+        chk.part('large_mesh', n=nL, modes=nL ** 3)
+    except Exception as e:  # noqa
+        chk.violation(f'large-mesh-raises-{type(e).__name__}', f'bin_kmu on a large mesh: {type(e).__name__}: {e}', {})
     # ---- extended coverage (spec/Interp.tla): linear_interp values and expand_poles_to_3d as the inverse of the binning
     try:
         from abacusnbody.analysis.power_spectrum import linear_interp, expand_poles_to_3d
